@@ -385,4 +385,79 @@ theorem unquoteToks_idem (U : List UInt8) (hpct : (0x25 : UInt8) ∈ U) (hU : As
     obtain ⟨t0, _, ht0⟩ := ht
     exact itemOf_fixed U hpct t0 t ht0
 
+/-! ### the output has no raw character that `NON_PRINTABLE_RE` matches -/
+
+/-- a raw character emitted by `flush` is one that is not escaped again -/
+theorem raw_mem_flush {bs : List UInt8} {c : Char} (h : Tok.raw c ∈ flush bs) : staysEscaped c = false := by
+  simp only [flush_eq, List.mem_flatMap] at h
+  obtain ⟨x, _, hx⟩ := h
+  cases x with
+  | inl d =>
+    simp only [tokOfSeg] at hx
+    split at hx
+    · simp only [List.mem_map] at hx
+      obtain ⟨b, _, hb⟩ := hx
+      simp [escOfByte] at hb
+    · rename_i hd
+      simp only [List.mem_singleton, Tok.raw.injEq] at hx
+      subst hx
+      simpa using hd
+  | inr b => simp [tokOfSeg, escOfByte] at hx
+
+theorem raw_mem_assemble {c : Char} (its : List Item) : ∀ (acc : List UInt8),
+    Tok.raw c ∈ assemble its acc → staysEscaped c = false ∨ Item.lit (.raw c) ∈ its := by
+  induction its with
+  | nil => intro acc h; exact .inl (raw_mem_flush h)
+  | cons it r ih =>
+    intro acc h
+    cases it with
+    | lit t =>
+      simp only [assemble, List.mem_append, List.mem_cons] at h
+      rcases h with h | h | h
+      · exact .inl (raw_mem_flush h)
+      · right; rw [← h]; simp
+      · rcases ih _ h with h' | h'
+        · exact .inl h'
+        · exact .inr (List.mem_cons_of_mem _ h')
+    | byte b =>
+      simp only [assemble] at h
+      rcases ih _ h with h' | h'
+      · exact .inl h'
+      · exact .inr (List.mem_cons_of_mem _ h')
+
+/-- when the raw characters of the input are printable, so are those of the output -/
+theorem raw_unquoteToks (U : List UInt8) {ts : List Tok}
+    (h : ∀ c, Tok.raw c ∈ ts → staysEscaped c = false) :
+    ∀ c, Tok.raw c ∈ unquoteToks U ts → staysEscaped c = false := by
+  intro c hc
+  rcases raw_mem_assemble _ _ hc with h' | h'
+  · exact h'
+  · simp only [List.mem_map] at h'
+    obtain ⟨t0, ht0, hit⟩ := h'
+    cases t0 with
+    | raw c0 =>
+      simp only [itemOf] at hit
+      split at hit
+      · cases hit
+      · cases hit; exact h _ ht0
+    | stray => simp [itemOf] at hit
+    | esc h1 h2 =>
+      simp only [itemOf] at hit
+      split at hit
+      · cases hit
+      · split at hit
+        · rename_i hlt
+          have hlt' : (byteOf h1 h2).toNat < 0x80 := by
+            have := UInt8.lt_iff_toNat_lt.1 hlt; simpa using this
+          split at hit
+          · cases hit
+          · cases hit
+            exact staysEscaped_of_lt (by rw [toNat_ofNat_of_lt (by omega)]; exact hlt')
+        · cases hit
+
+/-- the output of the unquoter (on an `escapeRaw` input) is left alone by `escapeRaw` -/
+theorem escapeRaw_unquoteToks (U : List UInt8) (ts : List Tok) :
+    escapeRaw (unquoteToks U (escapeRaw ts)) = unquoteToks U (escapeRaw ts) :=
+  escapeRaw_fixed (raw_unquoteToks U (fun c hc => (raw_mem_escapeRaw hc).2))
+
 end Ural.Quote
